@@ -101,6 +101,7 @@ struct Ctl
   uint64_t sleep_advance_ns{0}; // virtual time that passes in every interposed sleep (at least the requested duration)
   bool split_frontend_clock{false};
   uint32_t enabled_hooks{0xffffffffu};
+  bool dtor_yield{false}; // the backend may be preempted inside a recording sink's destructor
 };
 
 extern Ctl* g_ctl;
@@ -192,6 +193,9 @@ public:
   explicit RecSink(int id, std::optional<quill::PatternFormatterOptions> o = std::nullopt) : quill::Sink(std::move(o)), _id(id) {}
   ~RecSink() override
   {
+    // user code runs here on the backend thread (a logger was erased): optional scheduling point 6
+    if (g_ctl && tl_actor && tl_actor->is_backend && !g_ctl->draining && (g_ctl->enabled_hooks & (1u << 6)) && g_ctl->dtor_yield)
+      actor_yield(6, AState::Ready);
     if (g_world)
     {
       Rec r{_id, "", 0, "", "", 0, "", g_ctl ? g_ctl->step : 0, false, true};
